@@ -388,7 +388,9 @@ def run_pyfunc(spec, ctx, bm):
                         e = float(np.max(np.abs(a_[fin] - b_[fin]))) / max(1.0, float(np.max(np.abs(b_[fin]))))
                         # an iterative kernel whose own answer moves by `sens` when its start moves by 1e-13 cannot be asked to agree
                         # with its interpreted source (other rounding of the same arithmetic) more closely than a few times that
-                        ok = e <= max(1e-10, 10.0 * sens)
+                        # (same bound as the three-way clause uses for iterative kernels: whether one more Newton step is taken can hinge
+                        # on one ulp of the stop test, and the two answers then differ by about the stop tolerance)
+                        ok = e <= (1e-6 if name in START_ARG else 1e-10)
                     elif ok:
                         e = 0.0
                 ctx.err(clause, e if np.isfinite(e) else 1e300)
